@@ -27,7 +27,7 @@ def build_replay(profile="debug"):
 def run_replay(script: str, profile="debug"):
     binp = build_replay(profile)
     import subprocess
-    p = subprocess.run([binp], input=script, text=True, capture_output=True, timeout=120)
+    p = subprocess.run([binp], input=script, text=True, capture_output=True, timeout=240)
     return p.stdout + ("\n[stderr] " + p.stderr[-800:] if p.returncode != 0 else ""), p.returncode
 
 
@@ -101,7 +101,11 @@ def replay_failure(failure):
     if fn is None:
         failure.replayed, failure.replay_note = None, "no native replay for this driver"
         return
-    script, pred, what = fn(_compact(cex["model"]), cex.get("params", {}), cex["role"])
+    res = fn(_compact(cex["model"]), cex.get("params", {}), cex["role"])
+    if res is None:
+        failure.replayed, failure.replay_note = None, "no native replay for this role of the driver"
+        return
+    script, pred, what = res
     notes, ok_any = [], False
     for profile in ("debug", "release"):
         try:
